@@ -88,6 +88,9 @@ package jsonclient
 //@ ensures [caller-view] result2 == nil ==> result0 != nil
 //@ ensures [returns-the-200-response-of-this-attempt] result2 == nil ==> pp.called && pp.res2 == nil && status == 200 && result0 == pp.res0 && result1 == pp.res1
 //@ ensures [non-retryable-status-returned-at-once-with-status-and-body] typeof(result2) == RspError && pp.called && pp.res2 == nil && !wb.called ==> as(result2, RspError).StatusCode == status && as(result2, RspError).Body == pp.res1 && status != 200 && status != 408 && status != 429 && status != 503
+//@ ensures [a-parsed-200-is-returned-at-once] pp.called && pp.res2 == nil && status == 200 ==> result2 == nil && !wb.called
+//@ ensures [a-failed-attempt-is-given-up-only-through-the-wait-unless-it-is-the-context-error-itself] pp.called && pp.res2 != nil && pp.res2 != context.Canceled && pp.res2 != context.DeadlineExceeded ==> wb.called && result2 == wb.res
+//@ ensures [retryable-statuses-are-given-up-only-through-the-wait] pp.called && pp.res2 == nil && (status == 408 || status == 429 || status == 503) ==> wb.called && result2 == wb.res
 //@ at s1 assert [transport-or-parse-error-backs-off-without-override] pp.res2 != nil && s1.arg0 == nil
 //@ at s2 assert [only-429-and-503-use-server-pacing] pp.res2 == nil && (status == 429 || status == 503)
 //@ at s2 assert [retry-after-seconds-honoured-exactly] at.called && at.res1 == nil ==> s2.arg0 != nil && *s2.arg0 == (at.res0 > 9223372036 ? 9223372036 : (at.res0 < -9223372036 ? -9223372036 : at.res0)) * 1000000000
